@@ -365,6 +365,10 @@ pub fn gen_seqres_doc(r: &mut Rng) -> Vec<String> {
                 head.push(format!("SEQADV 1ABC {} {} {:>4}  UNP  P12345              EXPRESSION TAG", r.pick(&plain), ch, start - 1 - k));
             }
             if r.chance(1, 4) { head.push(format!("SEQADV 1ABC {} {} {:>4}  UNP  P12345    ALA    12 ENGINEERED MUTATION   ", r.pick(&plain), ch, start + 1)); }
+            // differences that must NOT move the first position: one with a database residue in front of the start,
+            // one without a database residue at the start itself or behind it
+            if r.chance(1, 5) { head.push(format!("SEQADV 1ABC {} {} {:>4}  UNP  P12345    GLY     1 CONFLICT              ", r.pick(&plain), ch, start - 1 - r.below(2) as i64)); }
+            if r.chance(1, 5) { head.push(format!("SEQADV 1ABC {} {} {:>4}  UNP  P12345              INSERTION", r.pick(&plain), ch, start + r.below(2) as i64)); }
             start -= n_front;
         }
         plan.push((ch, start, seq));
@@ -390,7 +394,10 @@ pub fn gen_seqres_doc(r: &mut Rng) -> Vec<String> {
             let mut order: Vec<usize> = (0..seq.len()).collect();
             if r.chance(1, 8) && order.len() > 2 { let i = r.below(order.len() - 1); order.swap(i, i + 1); }
             if r.chance(1, 10) && !order.is_empty() { let i = r.below(order.len()); let v = order[i]; order.push(v); }
+            // residues as groups of lines, so that whole residues can change places
+            let mut groups: Vec<Vec<String>> = Vec::new();
             for i in order {
+                let mut body: Vec<String> = Vec::new();
                 if r.chance(1, 10) { continue; }
                 let num = start + i as i64 + shift;
                 let nm = if r.chance(1, 8) { r.pick(&plain).to_string() } else { seq[i].trim().replace('\t', "X") };
@@ -403,12 +410,34 @@ pub fn gen_seqres_doc(r: &mut Rng) -> Vec<String> {
                     let a = AtomRec { het, serial, name: an.to_string(), alt, resname, chain: if *ch == ' ' { 'A' } else { *ch }, resseq: num, icode: ' ', x: serial as i64 * 1000, y: 0, z: 0, occ: 1_000_000, b: 0, seg: String::new(), element: an[..1].to_string(), charge: 0, aniso: None };
                     body.push(atom_line(&a, r, false));
                 }
+                groups.push(body);
             }
             for _ in 0..r.below(3) {
                 serial += 1;
                 let a = AtomRec { het: true, serial, name: "O".into(), alt: ' ', resname: "HOH".into(), chain: if *ch == ' ' { 'A' } else { *ch }, resseq: start + seq.len() as i64 + r.range(1, 500), icode: ' ', x: serial as i64 * 1000, y: 0, z: 0, occ: 1_000_000, b: 0, seg: String::new(), element: "O".into(), charge: 0, aniso: None };
-                body.push(atom_line(&a, r, false));
+                groups.push(vec![atom_line(&a, r, false)]);
             }
+            // a residue (a water with a large number, or one of the chain's own) somewhere else in the chain: the walk
+            // then meets numbers that go down, skips over residues and comes to the end of the chain early
+            if r.chance(1, 4) && groups.len() > 2 {
+                for _ in 0..1 + r.below(2) {
+                    let from = r.below(groups.len());
+                    let g = groups.remove(from);
+                    let to = r.below(groups.len() + 1);
+                    groups.insert(to, g);
+                }
+            }
+            // ... on purpose: two neighbours swapped, a far-away water right behind them, and the last residue left out, so
+            // that the walk skips over the water, runs out of residues and appends the missing name behind it
+            if r.chance(1, 8) && groups.len() >= 4 {
+                let i = r.below(groups.len() - 3);
+                groups.swap(i, i + 1);
+                serial += 1;
+                let a = AtomRec { het: true, serial, name: "O".into(), alt: ' ', resname: "HOH".into(), chain: if *ch == ' ' { 'A' } else { *ch }, resseq: start + seq.len() as i64 + 700, icode: ' ', x: serial as i64 * 1000, y: 0, z: 0, occ: 1_000_000, b: 0, seg: String::new(), element: "O".into(), charge: 0, aniso: None };
+                groups.insert(i + 2, vec![atom_line(&a, r, false)]);
+                groups.pop();
+            }
+            for g in groups { body.extend(g); }
             body.push("TER".into());
         }
         if nmodels > 1 { body.push("ENDMDL".into()); }
